@@ -1,5 +1,5 @@
 SPECIFICATION Spec
-CONSTANTS Growth = 1 Mode = "bytes" MaxBits = 16 Wide = FALSE
+CONSTANTS Growth = 1 Mode = "bytes" MaxBits = 16 Wide = FALSE Lean = FALSE
 INVARIANT RoundTrip
 INVARIANT LengthInBLS
 INVARIANT WholeBytes
